@@ -13,7 +13,7 @@ func init() {
 		ID:    "C03.probe",
 		Props: []string{"C03"},
 		Doc:   "a point-in-ring/polygon probe whose probe point is a control point of another ring (Sequence.GetXY(k), no arithmetic) can land exactly on the boundary when rings touch, so its three-valued result must be consumed three-valued (compared against at least two distinct side constants) — a one-constant test silently treats 'on the boundary' as one of the other answers and makes the verdict depend on the ring's start vertex",
-		Floor: 6,
+		Floor: 2,
 		Run:   runC03Probe,
 	})
 }
